@@ -17,7 +17,7 @@ RULE = ("(a) all rooted DAG shapes n<=3 x listing orders x kinds x COND files ne
 ASSUMPTIONS = [
     "'runs under bash as run+args+options' is observed as the Popen argument vector (shell=True, executable=/bin/bash); that this "
     "vector reaches a real bash unchanged is bound by the real-process conformance items of C10/conformance",
-    "cached experiments use git-less newest-version selection here; the selection rule itself is C05",
+    "cached experiments use git-less newest-version selection, a linear history or one merge history here; the selection rule itself is C05",
 ]
 CHUNK = 8
 PRIMS = ["a", "a b", "", 0, -1, 1.5, True, False, 1e-15, 0.1 + 0.2]
@@ -137,6 +137,10 @@ def items(tier):
                     o = {str(i): {"k": True, "j": "v w"} for i in procs[-1:]}
                     out.append({"case": {"g": g, "kinds": kinds, "pars": [k in ("cmd", "exp") and jobs > 1 for k in kinds], "jobs": jobs,
                                          "pkgs": list(pk), "cached": cached, "args": a, "options": o, "empty_index": True}, "bound": 0})
+    # 4-task graphs with a shared sub-dependency, every listing order
+    for g in rungrid.graphs_upto((4,), shared_only_from=4):
+        for kinds in (["cmd"] * 4, ["exp"] * 4, ["combine", "exp", "cmd", "exp"]):
+            out.append({"case": {"g": g, "kinds": kinds, "pars": [False] * 4, "jobs": 1}, "bound": 0})
     # cached dependency with several recorded versions: dependents receive the selected (newest at equal distance) one
     for g in rungrid.graphs_upto((2, 3)):
         n = len(g)
@@ -146,6 +150,14 @@ def items(tier):
                 for commit in ((None,) if not git else (None, "c1" * 20, "c2" * 20)):
                     out.append({"case": {"g": g, "kinds": kinds, "pars": [False] * n, "jobs": 1, "git": git,
                                          "cached": {str(e): commit for e in exps}, "two_versions": True, "empty_index": True}, "bound": 0})
+    # ... and with a merge in the history, the two versions recorded on the two sides of it (closest = fewest commits in between)
+    for g in rungrid.graphs_upto((2, 3)):
+        n = len(g)
+        for kinds in (["cmd"] + ["exp"] * (n - 1), ["exp"] * n):
+            exps = [i for i in range(1, n) if kinds[i] == "exp"]
+            for pair in (["f3" * 20, "a1" * 20], ["a1" * 20, "f3" * 20], ["c0" * 20, "f2" * 20], ["a1" * 20, "ee" * 20]):
+                out.append({"case": {"g": g, "kinds": kinds, "pars": [False] * n, "jobs": 1, "git": True, "history": "merge",
+                                     "cached": {str(e): pair for e in exps}, "empty_index": True}, "bound": 0})
     # cond started with COND_* already in its environment (nested invocation): tasks must see their own values
     for g in rungrid.graphs_upto((1, 2, 3)):
         n = len(g)
